@@ -1,6 +1,132 @@
-import Influx.Model.C36
-import Influx.Spec.C36
+/-
+  Props.C36 — index and ID-set data structures behave like their abstract models.
+-/
+import Influx.Lemmas.C36BloomSim
+import Influx.Lemmas.C36IDSetSim
 
 namespace Influx.Props.C36
+open Influx.C36 Influx.Spec.C36
+
+/-! ## Bloom filter (pkg/bloom) -/
+
+/-- `Insert(v)` then `Contains(v)`: true, for any pair of hashes and any `k`. -/
+theorem bloom_contains_after_insert (f : Bloom.Filter) (h0 h1 : Nat) (hm : 0 < f.bits.length) :
+    (f.insert h0 h1).contains h0 h1 = true := Bloom.contains_insert_self f h0 h1 hm
+
+/-- … forever: no later insert clears a contained value (bits are monotone). -/
+theorem bloom_contains_monotone (f : Bloom.Filter) (h0 h1 g0 g1 : Nat) (h : f.contains h0 h1 = true) :
+    (f.insert g0 g1).contains h0 h1 = true := Bloom.contains_insert_mono f h0 h1 g0 g1 h
+
+/-- `Merge` keeps what either side contained. -/
+theorem bloom_merge_contains (f o f' : Bloom.Filter) (h : f.merge o = .ok f') (h0 h1 : Nat)
+    (hc : f.contains h0 h1 = true ∨ o.contains h0 h1 = true) : f'.contains h0 h1 = true :=
+  hc.elim (Bloom.contains_merge_left h h0 h1) (Bloom.contains_merge_right h h0 h1)
+
+/-! ## SeriesIDSet (tsdb/series_set.go) over an abstract roaring bitmap -/
+
+/-- the wrapper keeps the canonical (ascending, duplicate-free) representation -/
+theorem idset_add_sorted (s : IDSet.Set) (id : Nat) (h : IDSet.Sorted s) : IDSet.Sorted (IDSet.add s id) :=
+  IDSet.ins_sorted _ _ h
+
+theorem idset_mem_add (s : IDSet.Set) (id y : Nat) :
+    y ∈ IDSet.add s id ↔ y = id % 2 ^ 32 ∨ y ∈ s := IDSet.mem_ins _ _ _
+
+theorem idset_mem_union (a b : IDSet.Set) (y : Nat) : y ∈ IDSet.union a b ↔ y ∈ a ∨ y ∈ b :=
+  IDSet.mem_union a b y
+
+theorem idset_mem_and (a b : IDSet.Set) (y : Nat) : y ∈ IDSet.and a b ↔ y ∈ a ∧ y ∈ b := by
+  simp [IDSet.and, List.mem_filter]
+
+theorem idset_mem_andNot (a b : IDSet.Set) (y : Nat) : y ∈ IDSet.andNot a b ↔ y ∈ a ∧ y ∉ b := by
+  simp [IDSet.andNot, List.mem_filter]
+
+theorem idset_mem_remove (s : IDSet.Set) (id y : Nat) :
+    y ∈ IDSet.remove s id ↔ y ∈ s ∧ y ≠ id % 2 ^ 32 := by
+  simp only [IDSet.remove, IDSet.norm, List.mem_filter, ne_eq]
+  constructor
+  · rintro ⟨h1, h2⟩; exact ⟨h1, of_decide_eq_true h2⟩
+  · rintro ⟨h1, h2⟩; exact ⟨h1, decide_eq_true h2⟩
+
+/-- two canonical sets with the same members are the same list, so `Equals` is set equality -/
+theorem idset_equals_iff (a b : IDSet.Set) (ha : IDSet.Sorted a) (hb : IDSet.Sorted b) :
+    IDSet.equals a b = true ↔ ∀ y, y ∈ a ↔ y ∈ b := by
+  simp only [IDSet.equals, beq_iff_eq]
+  constructor
+  · rintro rfl y; rfl
+  · exact IDSet.sorted_ext a b ha hb
+
+/-- `marshal ∘ unmarshal = id`, given roaring's: for ANY codec of the bitmap that round-trips,
+    writing a set and reading it into a fresh set yields an equal set (the wrapper adds nothing
+    to the bytes: `WriteTo`/`UnmarshalBinary` delegate to the bitmap). -/
+theorem idset_roundtrip {Bytes : Type} (enc : IDSet.Set → Bytes) (dec : Bytes → Option IDSet.Set)
+    (hcodec : ∀ s, dec (enc s) = some s) (s : IDSet.Set) :
+    (dec (enc s)).map (IDSet.equals s) = some true := by
+  simp [hcodec, IDSet.equals]
+
+/-- The uint32 truncation is real: in the model (as in the code) adding 2^32+5 makes 5 a member. -/
+theorem idset_truncation_witness : IDSet.contains (IDSet.add [] (2 ^ 32 + 5)) 5 = true := by decide
+
+/-! ## The statement on the model's own traces -/
+
+/-- the part of the op language whose refinement proof is complete so far -/
+def Supported : Op → Prop
+  | .b _ => True
+  | .s _ => True
+  | _ => False
+
+/-- well-formed op: its hashes are those of its key; ids fit 32 bits -/
+def WF (bh : Key → Nat × Nat) : Op → Prop
+  | .b o => BOp.WF bh o
+  | .s o => SOp.WF o
+  | _ => True
+
+structure R (bh : Key → Nat × Nat) (st : State) (sp : SpecState) : Prop where
+  b : RB bh st.bf sp.bloom
+  s : RS st.sets sp.s
+
+theorem R_init (bh) : R bh init {} := ⟨RB_init bh, RS_init⟩
+
+theorem step_sim (bh) (st sp) (op : Op) (hR : R bh st sp) (hs : Supported op) (hwf : WF bh op) :
+    (check sp op (step st op).2).2 = none ∧ R bh (step st op).1 (check sp op (step st op).2).1 := by
+  cases op with
+  | r o => cases hs
+  | t o => cases hs
+  | b o =>
+    have := stepB_sim bh st.bf sp.bloom o hR.b hwf
+    simp only [step, check]
+    exact ⟨this.1, ⟨this.2, hR.s⟩⟩
+  | s o =>
+    have := stepS_sim st.sets sp.s o hR.s hwf
+    simp only [step, check]
+    exact ⟨this.1, ⟨hR.b, this.2⟩⟩
+
+theorem firstFailure_run (bh) (ops : List Op) : ∀ (st sp), R bh st sp →
+    (∀ op ∈ ops, Supported op ∧ WF bh op) → firstFailure sp (run st ops) = none := by
+  induction ops with
+  | nil => intros; rfl
+  | cons op ops ih =>
+    intro st sp hR hall
+    have h1 := hall op (by simp)
+    have := step_sim bh st sp op hR h1.1 h1.2
+    simp only [run, firstFailure]
+    cases hc : check sp op (step st op).2 with
+    | mk sp' c =>
+      rw [hc] at this
+      simp only at this
+      obtain ⟨hnone, hR'⟩ := this
+      subst hnone
+      exact ih _ _ hR' (fun o ho => hall o (by simp [ho]))
+
+/-- **C36 on the model (partial)**: for every pair of bloom hash functions `bh`, the statement
+    checker accepts every trace the model produces on well-formed ops.
+    PARTIAL: restricted to the `Supported` ops (bloom + id sets so far). -/
+theorem C36_holdsOn_partial (bh : Key → Nat × Nat) (ops : List Op)
+    (h : ∀ op ∈ ops, Supported op ∧ WF bh op) : holdsOn (run init ops) = true := by
+  simp [holdsOn, firstFailure_run bh ops init {} (R_init bh) h]
+
+-- the hypothesis is met by non-trivial op sequences
+example : ∀ op ∈ [Op.b (.new 0 64 3), .b (.ins 0 [1, 2] 7 9), .b (.has 0 [1, 2] 7 9), .s (.add 1 5), .s (.slice 1)],
+    Supported op ∧ WF (fun _ => (7, 9)) op := by
+  intro op h; simp at h; rcases h with rfl | rfl | rfl | rfl | rfl <;> simp [Supported, WF, BOp.WF, SOp.WF]
 
 end Influx.Props.C36
